@@ -21,7 +21,9 @@ def pools(rng):
           "1!1.0", "1.0.dev0", "1.0.DEV", "01.0", "1", "1.0.0.0"]
     P["version"] = [(s, Version.parse(s)) for s in vs]
     cs = [">=1,<2", ">=1.0 <2.0", "^1", ">=1.0.0,<2.0.0", "~1", "1.*", "==1.*", ">=1.dev0,<2.dev0", "!=1.5", "<1.5 || >1.5", "*", ">=1 || <1", "1.0", "==1.0", "==1.0.0",
-          ">1,<1", "<1,>=1"]
+          ">1,<1", "<1,>=1",
+          # an exclusive final upper bound and its first dev release bound the same versions but are different objects
+          ">=1.dev0,<2", "<2", "<2.dev0", "<=2.dev0", "!=1.*", "<1 || >=2.dev0", "<1.dev0 || >=2.dev0", "<1.dev0 || >=2", ">=1,<2.dev0"]
     P["constraint"] = [(s, parse_constraint(s)) for s in cs]
     P["constraint"] += [(f"({s})∩self", c.intersect(c)) for s, c in P["constraint"][:8]] + [(f"({s})∪self", c.union(c)) for s, c in P["constraint"][:8]]
     # near misses: the same two bounds under every inclusivity, alone and paired, over bounds that are final, pre-, post- and
@@ -39,6 +41,8 @@ def pools(rng):
         for b in (lo, hi):
             near += [f"{op}{b.text}" for op in ("<", "<=", ">", ">=", "==", "!=")]
         near += [f"{a}{lo.text},{b}{hi.text}" for a in (">", ">=") for b in ("<", "<=")]
+        if not (hi.is_prerelease() or hi.is_postrelease() or hi.is_devrelease()):
+            near += [f"<{hi.text}.dev0", f"<={hi.text}.dev0", f">={lo.text},<{hi.text}.dev0", f">{lo.text},<{hi.text}.dev0", f"<{lo.text} || >={hi.text}.dev0"]
         near += [f"<{lo.text} || >{hi.text}", f"<={lo.text} || >{hi.text}", f"<{lo.text} || >={hi.text}", f"<={lo.text} || >={hi.text}"]
     P["constraint_near"] = []
     for s in dict.fromkeys(near):
@@ -49,7 +53,20 @@ def pools(rng):
     ms = ['python_version >= "3.8"', "python_version>='3.8'", 'python_version >= "3.8" and sys_platform == "linux"', 'sys_platform == "linux" and python_version >= "3.8"',
           '"arm64" not in platform_machine', 'platform_machine not in "arm64"', 'extra == "a"', "extra == 'A'", 'os.name == "nt"', 'os_name == "nt"',
           'python_version >= "3.8" or python_version >= "3.8"', "", 'sys_platform == "linux" or sys_platform != "linux"']
-    P["marker"] = [(s, parse_marker(s)) for s in ms]
+    # the same alternatives / the same conjuncts in another order, alone and nested (reordered marker text)
+    import marker_impl as MI
+    for _ in range(6):
+        ls = []
+        for kind in rng.sample(["pv", "pfv", "str", "extra", "rel"], 3):
+            ls.append(MI.gen_leaf(rng, kind)[0])
+        l1, l2, l3 = ls
+        ms += [f"{l1} or {l2}", f"{l2} or {l1}", f"{l1} or {l2} or {l3}", f"{l3} or {l1} or {l2}", f"({l1} or {l2}) and {l3}", f"({l2} or {l1}) and {l3}",
+               f"{l3} and ({l2} or {l1})", f"{l1} and {l2}", f"{l2} and {l1}", f"({l1} and {l2}) or {l3}", f"{l3} or ({l2} and {l1})"]
+    ms = list(dict.fromkeys(ms))
+    P["marker"] = []
+    for s in ms:
+        try: P["marker"].append((s, parse_marker(s)))
+        except Exception: pass  # noqa
     P["marker"] += [(f"({s}) and self", m.intersect(m)) for s, m in P["marker"][:6]] + [(f"({s}) or self", m.union(m)) for s, m in P["marker"][:6]]
     ds = ["requests>=2.0", "Requests >=2.0", "requests (>=2.0)", "re_quests>=2.0", "re-quests>=2.0", "Re.Quests >= 2.0", "requests[a,b]>=2.0", "requests[b,a]>=2.0",
           "requests>=2.0; python_version >= '3.8'", "x @ git+https://github.com/x/y.git@main", "x @ git+https://github.com/x/y.git@main#subdirectory=s",
